@@ -65,7 +65,13 @@ def skeletons():
                     ("msg", n[0], [], [("shared.%s" % n[2], "got", 1), ("shared.Mode", "mode", 2), ("shared.%s.%s" % (n[2], n[3]), "lid", 3)]),
                     ("msg", n[1], [], [(n[0], "p", 1)])]})
 
-    return [("flat", flat), ("nested2", nested2), ("nested3", nested3), ("imports", imports)]
+    def dotted(n):
+        # file names with additional dots and upper case: <schema file base name>_bp keeps everything but the last extension
+        m = imports(n)
+        return dict(main="Pen.v2", proto_names={"Pen.v2": "pen", "shared.v1": "shared"},
+                    files={"shared.v1": m["files"]["shared"], "Pen.v2": [("import", "shared.v1")] + m["files"]["pen"][1:]})
+
+    return [("flat", flat), ("nested2", nested2), ("nested3", nested3), ("imports", imports), ("dotted", dotted)]
 
 
 def states(tier):
@@ -79,7 +85,7 @@ def states(tier):
 
 
 def render_text(model, stem, prefix):
-    lines = ["proto %s" % stem, ""]
+    lines = ["proto %s" % model.get("proto_names", {}).get(stem, stem), ""]
     if prefix and stem == model["main"]:
         lines += ['option c.name_prefix = "%s"' % prefix, ""]
 
@@ -250,7 +256,7 @@ def run_unit(unit):
                     h = texts[model["main"] + "_bp.h"]
                     structs = dict((n, re.findall(r"^\s+[^/\n]*?\b(\w+)(?:\[\w+\])*;", body, re.M)) for n, body in re.findall(r"^struct (\w+) \{\n(.*?)^\}", h, re.M | re.S))
                     typedefs = set(re.findall(r"^typedef [\w ]+? (\w+)(?:\[\w+\])*;", h, re.M))
-                    macros = set(re.findall(r"^#define (\w+) ", h, re.M)) - {"__BITPROTO__%s_H__" % model["main"].upper(), "BITPROTO_OPTIMIZATION_MODE"}
+                    macros = set(re.findall(r"^#define (\w+) ", h, re.M)) - {"__BITPROTO__%s_H__" % model.get("proto_names", {}).get(model["main"], model["main"]).upper(), "BITPROTO_OPTIMIZATION_MODE"}
                     funcs = set(re.findall(r"^int (\w+)\(", h, re.M))
                     for n, fields in exp["c"]["structs"].items():
                         if structs.get(n) != fields:
@@ -311,8 +317,15 @@ def run_unit(unit):
                         "    elif not n.startswith('_'):\n"
                         "        o['names'].append(n)\n"
                         "print(json.dumps(o))\n" % (bind.PYLIB_DIR, odir, model["main"]))
-                r = subprocess.run([sys.executable, "-c", code], capture_output=True, text=True, timeout=120)
-                if r.returncode:
+                if "." in model["main"]:
+                    # a module file name with additional dots cannot be imported by name: only the file names are checked
+                    out.count("python_import_not_applicable_dotted_file_name")
+                    r = None
+                else:
+                    r = subprocess.run([sys.executable, "-c", code], capture_output=True, text=True, timeout=120)
+                if r is None:
+                    pass
+                elif r.returncode:
                     viol("py-import", "import_failed", r.stderr[-800:], "py")
                 else:
                     o = json.loads(r.stdout)
